@@ -84,6 +84,8 @@ pub fn natives() -> Vec<Spec> {
 		out.push(Spec::Native(Native::Slice(k, vec![3, 1, 2, 0])));
 		out.push(Spec::Native(Native::NewOW(k, 0)));
 		out.push(Spec::Native(Native::ZstAround(k, 2, 0)));
+		out.push(Spec::Native(Native::VecsNew(k)));
+		out.push(Spec::Native(Native::VecsRefs(k)));
 	}
 	out.push(Spec::Native(Native::BoxedTupVecs(vec![1, 0], vec![2, 0])));
 	out.push(Spec::Native(Native::BoxedTupVecs(vec![], vec![])));
